@@ -288,7 +288,7 @@ func genStr(rng *rand.Rand) string {
 		n = 256
 	case 6:
 		if rng.Intn(40) == 0 {
-			n = []int{65535, 65536, 70000}[rng.Intn(3)]
+			n = []int{65535, 65536, 70000, 65535, 65536, 70000, 262144, 300000}[rng.Intn(8)]
 		} else {
 			n = 300
 		}
@@ -370,6 +370,9 @@ func genCtls(rng *rand.Rand) []Ctl {
 		return nil
 	}
 	n := 1 + rng.Intn(4)
+	if rng.Intn(25) == 0 {
+		n = []int{9, 12, 20}[rng.Intn(3)]
+	}
 	cs := make([]Ctl, n)
 	for i := range cs {
 		cs[i] = genCtl(rng)
@@ -377,8 +380,19 @@ func genCtls(rng *rand.Rand) []Ctl {
 	return cs
 }
 
+// genCount: list lengths - mostly 0..3, now and then a long list (9, 17, 40 elements: past any small fixed table)
+func genCount(rng *rand.Rand) int {
+	if rng.Intn(25) == 0 {
+		return []int{8, 9, 10, 17, 40}[rng.Intn(5)]
+	}
+	return rng.Intn(4)
+}
+
 func genVals(rng *rand.Rand) []string {
 	n := []int{0, 1, 1, 1, 2, 3}[rng.Intn(6)]
+	if rng.Intn(25) == 0 {
+		n = []int{8, 9, 10, 17, 40}[rng.Intn(5)]
+	}
 	v := make([]string, n)
 	for i := range v {
 		v[i] = genStr(rng)
@@ -441,7 +455,7 @@ func genReq(rng *rand.Rand) Req {
 		r.Time = []int64{0, 1, 60, 1<<31 - 1, rng.Int63n(1 << 31)}[rng.Intn(5)]
 		r.TypesOnly = rng.Intn(2) == 0
 		r.Filter = genFilter(rng, 0)
-		n := rng.Intn(4)
+		n := genCount(rng)
 		for i := 0; i < n; i++ {
 			r.Attrs = append(r.Attrs, genName(rng))
 		}
@@ -449,13 +463,13 @@ func genReq(rng *rand.Rand) Req {
 	case "extended":
 		r.Name = []string{"1.3.6.1.4.1.1466.20037", "1.3.6.1.4.1.4203.1.11.3", "1.3.6.1.4.1.4203.1.11.1", "1.2.3", genStr(rng)}[rng.Intn(5)]
 	case "modify":
-		n := rng.Intn(4)
+		n := genCount(rng)
 		for i := 0; i < n; i++ {
 			r.Changes = append(r.Changes, Chg{Op: int64(rng.Intn(4)), Type: genName(rng), Vals: genVals(rng)})
 		}
 		r.Ctls = genCtls(rng)
 	case "add":
-		n := rng.Intn(4)
+		n := genCount(rng)
 		for i := 0; i < n; i++ {
 			r.AddAttrs = append(r.AddAttrs, Att{Type: genName(rng), Vals: genVals(rng)})
 		}
